@@ -449,9 +449,10 @@ def _sequence_failures(case, obs, fail):
         for k, (st, ans) in enumerate(zip(seq, answers)):
             here = obs[(0, st["key"])]
             want = None if here["err"] else sorted(here["std"])
-            what = "step %d of the %s history (substrate %s as %s, template %s as %s, strategy %s%s%s%s)" % (
+            what = "step %d of the %s history (substrate %s as %s, template %s as %s, strategy %s%s%s%s%s)" % (
                 k + 1, label, st["sub"], st.get("sub_form", "smiles"), st["rsmi"], st.get("tpl_form", "graph"), st["strategy"],
-                " enum" if st.get("enum") else "", " options %r" % st["opts"] if st.get("opts") else "",
+                " enum" if st.get("enum") else "", " via from_smiles" if st.get("ctor") == "from_smiles" else "",
+                " options %r" % st["opts"] if st.get("opts") else "",
                 " after renumbering the shared template object in place" if st.get("relabel") else "")
             if ans["std"] != want:
                 fail("invariant-sequence", "%s gives %s reactions, the base writing alone gives %s; history run in one fresh interpreter: %r"
